@@ -62,6 +62,9 @@ def run(ctx):
         ctx.violation("C18:%s" % cls, "%s(%r) -> %s %s: differs from the reference semantics (%d inputs of this class, e.g. %s)" %
                       (b["which"], b["s"], b["outcome"], b.get("val", ""), len(bl), [x["s"] for x in bl[:5]]),
                       replay={"property": "C18", "trace_spec": "OptionsTrace", "run": bl[:50]})
+    pick = next((e for e in events if e["which"] == "ports" and e["outcome"] == "err" and e["s"] == ""), None)
+    if pick is not None:
+        vf.selftest_event(ctx, "OptionsTrace", dict(pick, outcome="ok", val=[[1, 1]]), "the empty port list presented as accepted with value 1-1")
     for e in events[:3] + events[-2:]:
         ctx.sample({k2: v for k2, v in e.items() if k2 != "lines"})
 
